@@ -25,9 +25,14 @@ def discard_stderr(func: Callable[..., T]) -> Callable[..., T]:
 
     @functools.wraps(func)
     def wrapper(*args, **kwargs) -> T:
-        sys.stderr = open(os.devnull, "w")
-        res = func(*args, **kwargs)
-        sys.stderr = sys.__stderr__
+        previous_stderr = sys.stderr
+        devnull = open(os.devnull, "w")
+        sys.stderr = devnull
+        try:
+            res = func(*args, **kwargs)
+        finally:
+            sys.stderr = previous_stderr
+            devnull.close()
         return res
 
     return wrapper
